@@ -90,6 +90,8 @@ def ref_sets(events_with_exp):
     """events_with_exp: list of (conn_name, exp).  -> {(conn, label): set(line idx)}"""
     sets = {}
     for i, (cn, exp) in enumerate(events_with_exp):
+        if exp.get('orphan'):
+            continue      # an unresolved object has no id+letters label (it is shown as `@77?`)
         labs = {exp['target']}
         for kind, lab in exp['args']:
             if kind in ('obj', 'new'):
@@ -128,6 +130,11 @@ def check_labels(s, shown, exps, case, V):
     for cn in sorted({cn for cn, _ in exps}):
         got, err = listed(s, cn + ':', shown)
         want_lines = [shown[i] for i, (c2, _) in enumerate(exps) if c2 == cn]
+        # messages on an object whose creation was never seen are shown without a connection name: whether `B:` selects
+        # them is not decided here (upstream files them under the name `unknown`)
+        undecided = {shown[i] for i, (c2, e2) in enumerate(exps) if e2.get('orphan')}
+        got = [l for l in got if l not in undecided]
+        want_lines = [l for l in want_lines if l not in undecided]
         if got != want_lines or err:
             V.append(Violation('labels.connection_matcher', case, {'matcher': cn + ':', 'expected': want_lines, 'observed': got, 'err': err}))
 
@@ -149,9 +156,16 @@ def eval_history(case):
             exps = [('A', e) for e in es]
         s = sut.Session()
         shown = []
-        for line in lines:
+        for k, line in enumerate(lines):
+            if case.get('select') and k in (len(lines) // 3, 2 * len(lines) // 3):
+                # a live session in which the user watches one connection, then another: labels of the connections not
+                # being watched must select their messages all the same
+                s.cmd('connection ' + ('B' if k == len(lines) // 3 else 'A'))
             out, _ = s.feed_line(line)
             shown += [l for l in out if outparse.classify(l)[0] == 'message']
+        if case.get('select'):
+            s.cmd('connection all')
+            shown = [l for l in s.cmd('list *')[0] if outparse.classify(l)[0] == 'message']
         if len(shown) != len(lines):
             V.append(Violation('labels.line_count', case, {'expected': len(lines), 'observed': len(shown)}))
         else:
@@ -193,6 +207,8 @@ def gen_histories(tier):
             if tier == 'quick' and n % 7:
                 continue   # quick: every 7th interleaving (deterministic slice); thorough: all
             yield {'scripts': list(tup), 'order': list(order)}
+            if len(tup) >= 2:
+                yield {'scripts': list(tup), 'order': list(order), 'select': True}
 
 
 def eval_many_connections(case):
